@@ -1,11 +1,14 @@
 package main
 
 // One exploration per (node kind, slice of the alphabet, depth bound); sequences explored by state.
+// The full node has about twice the successors per state (two DB writes per save = four crash
+// variants), hence its own bound. Sized by measurement: about 3 ms CPU per transition.
 type planItem struct {
-	slice string // full | certs | local (see sliceOf)
-	depth int
+	slice      string // full | certs | local (see sliceOf)
+	depthLight int
+	depthFull  int
 }
 
-var quickPlan = []planItem{{"full", 4}, {"certs", 5}, {"local", 7}}
+var quickPlan = []planItem{{"full", 4, 4}, {"certs", 5, 5}, {"local", 7, 7}}
 
-var thoroughPlan = []planItem{{"full", 6}, {"certs", 7}, {"local", 9}}
+var thoroughPlan = []planItem{{"full", 5, 4}, {"certs", 6, 6}, {"local", 9, 9}}
